@@ -1569,6 +1569,21 @@ def _run_hom_table(ctx, rid, it, table, home_rel, complex_scale=False,
                                   f"multiplied by {h!r}: it cannot preserve "
                                   "the Minkowski form for every "
                                   "representative, and what it is")
+                    elif slot == "proj_data" and o.cls is not None \
+                            and o.cls.name == "Isometry" and h is not None \
+                            and h.mixed and h.parts is not None and any(
+                                m for d in h.parts if d not in ("*", "mixed")
+                                for v, n_, m in d):
+                        bad = next(d for d in h.parts
+                                   if d not in ("*", "mixed")
+                                   and any(m for v, n_, m in d))
+                        verdict = "refuted"
+                        detail = (f"some rows of the returned Isometry's "
+                                  f"matrix are multiplied by "
+                                  f"{HM.Hom(bad)!r} (a modulus, not only a "
+                                  "sign): a matrix whose rows grow with the "
+                                  "representative cannot preserve the "
+                                  "Minkowski form, and what it is")
             if t.tainted is not None and verdict == "proved":
                 verdict, detail = "undecided", t.tainted
         if failed is not None and verdict in ("proved", "object"):
